@@ -753,4 +753,13 @@ def _verify_roundtrip_fixed(self, decl):
     return ex
 
 
-ProgramVerifier.verify_roundtrip = _verify_roundtrip_fixed
+def _verify_roundtrip(self, decl):
+    from . import gen_rt
+    r = gen_rt.verify_roundtrip(self, decl)
+    if isinstance(r, tuple):
+        raise Unsupported("roundtrip: " + r[1])
+    return r
+
+
+ProgramVerifier.verify_roundtrip = _verify_roundtrip
+ProgramVerifier.verify_roundtrip_fixed = _verify_roundtrip_fixed
